@@ -286,6 +286,17 @@ func (st *Store) Apply(args []string) interface{} {
 	}
 	name, k := strings.ToLower(args[0]), args[1]
 	a := args[2:]
+	// documented: a key must be namespace:table:real-key (the namespace is
+	// cut by the caller), otherwise the command fails
+	if MultiKey(name) {
+		for _, kk := range args[1:] {
+			if !validKey(kk) {
+				return Err("key format")
+			}
+		}
+	} else if !validKey(k) {
+		return Err("key format")
+	}
 	switch name {
 	// ---- KV ----
 	case "set":
@@ -1172,6 +1183,9 @@ func TypeOf(name string) string {
 	}
 	return ""
 }
+
+// validKey: table:key with a non-empty table.
+func validKey(k string) bool { return strings.IndexByte(k, ':') > 0 }
 
 // MultiKey reports commands whose arguments after the name are all keys.
 func MultiKey(name string) bool {
